@@ -378,8 +378,19 @@ func runWorker(bin string, job *Job, dir string, memLimitMB int, timeout time.Du
 	os.Remove(job.Status + ".hang")
 	b, _ := json.Marshal(job)
 	os.WriteFile(jf, b, 0644)
+	if strings.HasSuffix(bin, ".race") || strings.Contains(filepath.Base(bin), "race") {
+		// the race runtime maps its shadow inside the same address-space
+		// limit: with the plain limit it dies inside the sanitizer runtime
+		// (silently, with GORACE's exit code) or with "too many address space
+		// collisions for -race mode"
+		f := 5
+		if v, err := strconv.Atoi(os.Getenv("VERIF_RACE_MEM_FACTOR")); err == nil && v > 0 {
+			f = v
+		}
+		memLimitMB *= f
+	}
 	// ulimit -v through sh so a runaway allocation ends the worker, not the VM
-	sh := fmt.Sprintf("ulimit -v %d; exec %s -test.run '^TestVerif$' -test.timeout %ds -test.count 1", memLimitMB*1024, bin, int(timeout.Seconds())+120)
+	sh := fmt.Sprintf("ulimit -v %d; exec %s -test.run '^TestVerif$' -test.timeout %ds -test.count 1 -test.paniconexit0", memLimitMB*1024, bin, int(timeout.Seconds())+120)
 	cmd := exec.Command("sh", "-c", sh)
 	cmd.Dir = dir
 	cmd.Env = append(os.Environ(), "VERIF_JOB="+jf, "GODEBUG=asynctimerchan=0", "GOMAXPROCS=2",
@@ -422,6 +433,12 @@ func runWorker(bin string, job *Job, dir string, memLimitMB int, timeout time.Du
 	if b, err := os.ReadFile(job.Out); err == nil {
 		wr.Raw = b
 		json.Unmarshal(b, &wr.Res)
+	} else if logs, _ := filepath.Glob(filepath.Join(dir, fmt.Sprintf("race.%d.*", job.Worker))); len(logs) > 0 {
+		// a worker that died inside the sanitizer runtime leaves its last words in the race log
+		sort.Strings(logs)
+		if lb, err := os.ReadFile(logs[len(logs)-1]); err == nil {
+			wr.Output += "\n[race log " + filepath.Base(logs[len(logs)-1]) + "]\n" + tailStr(string(lb), 3000)
+		}
 	}
 	if b, err := os.ReadFile(job.Status); err == nil {
 		wr.Status = strings.TrimSpace(string(b))
@@ -545,7 +562,14 @@ func cmdCheck(id, tier string) int {
 				if left < 1 {
 					left = 1
 				}
-				job := &Job{Prop: id, Tier: tier, Seed: seed, Worker: i, NWorkers: W, BudgetSec: left, MaxRuns: recycleEvery, RunOffset: offset, Minimise: true, MinBudget: 20, Known: known}
+				// the race runtime dies (silently, with GORACE's exit code) once 8128
+				// goroutines are alive at the same time; goroutines abandoned in
+				// blocked channel operations at the end of an incarnation count
+				maxRuns := recycleEvery
+				if bin == bo.RaceBin && bo.RaceBin != "" {
+					maxRuns = recycleEvery / 5
+				}
+				job := &Job{Prop: id, Tier: tier, Seed: seed, Worker: i, NWorkers: W, BudgetSec: left, MaxRuns: maxRuns, RunOffset: offset, Minimise: true, MinBudget: 20, Known: known}
 				if tier == "thorough" {
 					job.MinBudget = 120
 				}
@@ -557,7 +581,7 @@ func cmdCheck(id, tier string) int {
 				if wr.Raw != nil {
 					json.Unmarshal(wr.Raw, &r)
 				}
-				if wr.Raw == nil || r.Runs < recycleEvery || len(r.Violations) > 0 || r.Error != "" {
+				if wr.Raw == nil || r.Runs < maxRuns || len(r.Violations) > 0 || r.Error != "" {
 					return
 				}
 				offset += r.Runs
